@@ -27,6 +27,8 @@ def all_bare(c):
 def run(tier, seed):
     ctx = core.Ctx("C13", tier, seed, LEVEL)
     cases = streams.tlc_cases(ctx, "MC_C15", "MC_C13_q", 25000 if tier == "quick" else None, seed)
+    # two trait instructions x every spelling vector: a bare instruction in front of an #[o2o(..)] one (and the reverse) must keep the order of the impls
+    cases += streams.tlc_cases(ctx, "MC_C15", "MC_C13_q2", 25000 if tier == "quick" else None, seed)
     cases = [c for c in cases if c != all_bare(c)]
     trace, srcs = [], {}
     inp = [{"id": f"vec:{i}", "srcs": [c15.concretize(all_bare(c)), c15.concretize(c)]} for i, c in enumerate(cases)]
@@ -56,7 +58,7 @@ def run(tier, seed):
     ctx.cov["pairs_by_stream"] = {k: sum(1 for t in trace if t["id"].startswith(k)) for k in ("vec", "respell", "group")}
     ctx.cov["accepted_pairs"] = sum(1 for t in trace if t["v1"] == "ok")
     ctx.cov["distinct_nontrivial"] = len({srcs[t["id"]][1] for t in trace})
-    ctx.cov["rule"] = ("TLC enumerates small inputs (trait / type-level / member-level instructions, valid, misplaced and misnamed ones) with EVERY spelling vector "
+    ctx.cov["rule"] = ("TLC enumerates small inputs (one or two trait instructions / type-level / member-level instructions, valid, misplaced and misnamed ones) with EVERY spelling vector "
                        "(each instruction bare or #[o2o(..)], adjacent own ones grouped into one list or not); the real derive expands the all-bare form and the "
                        "respelled form: token identity, same verdict, same diagnostics modulo the documented allow_unknown hint; plus syn-level respelling and "
                        "grouping of every instruction valid at its level in the repository's inputs, C04 sequences and arm-coverage inputs.")
